@@ -19,7 +19,7 @@ import subprocess
 
 import common
 
-EXTRA_STREAM_MODULES = ["parser"]   # the parser model's correspondence (lib/props/parser.py) runs as part of this check
+EXTRA_STREAM_MODULES = ["parser", "pipeline"]   # the parser model's correspondence (lib/props/parser.py) runs as part of this check
 TRUSTED_EXTRA = [
     "C10: theories/Lexer.v (transcription of src/syntax/scanner.rs by the C07 work, tied by the token dump differential) is the object the theorem speaks about",
     "C10: the parser, resolver and runtime are not modelled; their layout independence is checked only by the oracle on the implementation (harness/src/layout.rs)",
